@@ -21,7 +21,11 @@ import time, signal
 import z3
 
 MAX_DEPTH = 14
-LEAF_Z3_S = 15
+# sub-timeouts (seconds, wall clock) as fractions of the clause timeout T, with floors: (prune, each lemma check, leaf z3, final leaf z3)
+
+
+def _budget(T):
+    return {'prune': max(2, T / 100.0), 'each': max(5, T / 40.0), 'leaf': max(5, T / 40.0), 'final': max(15, T / 10.0), 'gb': max(120, T / 2.0)}
 
 
 class _Alarm(Exception):
@@ -149,9 +153,9 @@ def _enrich(H, consts, t_each):
 
 def prove(hyps, goal, timeout, consts=()):
     deadline = time.time() + timeout
-    stats = {'leaves': 0, 'groebner_leaves': 0, 'closed_infeasible': 0}
+    stats = {'leaves': 0, 'groebner_leaves': 0, 'closed_infeasible': 0, 'budget': _budget(timeout)}
     H, g = _split_goal(_flatten([z3.simplify(h) for h in hyps]), z3.simplify(goal))
-    H, inf = _enrich(H, list(consts), 5)
+    H, inf = _enrich(H, list(consts), stats['budget']['each'])
     if inf:
         return 'SUCCESS', None, stats
     r, m = _rec(H, g, deadline, 0, list(consts), stats)
@@ -178,7 +182,7 @@ def _rec(H, g, deadline, depth, consts, stats):
         def sub(e):
             return z3.simplify(z3.substitute(e, (c, bv)))
         Hc = _flatten([sub(h) for h in H] + [c if val else z3.Not(c)])
-        if _z3([h for h in Hc if not _has_ite(h)], [], 2)[0] == z3.unsat:
+        if _z3([h for h in Hc if not _has_ite(h)], [], stats['budget']['prune'])[0] == z3.unsat:
             stats['closed_infeasible'] += 1
             continue
         r, m = _rec(Hc, sub(g), deadline, depth + 1, consts, stats)
@@ -192,14 +196,15 @@ def _leaf(H, g, deadline, consts, stats):
     left = deadline - time.time()
     if left <= 0:
         return None, None
-    r, m = _z3(H, [z3.Not(g)], min(left, 5))
+    B = stats['budget']
+    r, m = _z3(H, [z3.Not(g)], min(left, B['leaf']))
     if r == z3.unsat:
         return 'SUCCESS', None
     if r == z3.sat:
         return 'FAILURE', m
     H2, g2 = _split_goal(H, g)
-    H2, inf = _enrich(H2, consts, 5)
-    if inf or _z3(H2, [], 5)[0] == z3.unsat:
+    H2, inf = _enrich(H2, consts, B['each'])
+    if inf or _z3(H2, [], B['each'])[0] == z3.unsat:
         stats['closed_infeasible'] += 1
         return 'SUCCESS', None
     left = deadline - time.time()
@@ -207,7 +212,7 @@ def _leaf(H, g, deadline, consts, stats):
         return None, None
     import rgroebner
     if rgroebner.equalities(g2) is None:
-        r, m = _z3(H2, [z3.Not(g2)], min(left, LEAF_Z3_S))
+        r, m = _z3(H2, [z3.Not(g2)], min(left, B['final']))
         if r == z3.unsat:
             return 'SUCCESS', None
         return ('FAILURE', m) if r == z3.sat else (None, None)
@@ -216,7 +221,7 @@ def _leaf(H, g, deadline, consts, stats):
     def on_alarm(sig, frm):
         raise _Alarm()
     old = signal.signal(signal.SIGALRM, on_alarm)
-    signal.alarm(max(1, int(min(left, 120))))
+    signal.alarm(max(1, int(min(left, B['gb']))))
     try:
         ok = rgroebner.prove(H2, g2, left)
     except _Alarm:
@@ -231,7 +236,7 @@ def _leaf(H, g, deadline, consts, stats):
     left = deadline - time.time()
     if left <= 1:
         return None, None
-    r, m = _z3(H2, [z3.Not(g2)], min(left, LEAF_Z3_S))
+    r, m = _z3(H2, [z3.Not(g2)], min(left, B['final']))
     if r == z3.unsat:
         return 'SUCCESS', None
     return ('FAILURE', m) if r == z3.sat else (None, None)
